@@ -38,7 +38,7 @@ ASSUMPTIONS = [
 BUDGET_S = {"quick": 300, "thorough": 3000}
 MIN_EVALS = {"quick": 2500, "thorough": 30000}
 
-WORLDS = ("ok", "dns-fail", "refuse", "tcp-hang", "garbage", "badauth", "silent", "bye-with-last-answer")
+WORLDS = ("ok", "dns-fail", "refuse", "tcp-hang", "garbage", "badauth", "silent", "bye-with-last-answer", "accept-then-reset")
 
 
 def apply_world(sim: Sim, cfg: DeviceConfig, world: str) -> None:
@@ -87,6 +87,9 @@ def run_history(hist: list[Any]) -> dict[str, Any]:
                     return ("refuse", 0.001)
                 if w == "tcp-hang":
                     return ("hang",)
+                if w == "accept-then-reset":
+                    # the device accepts and aborts at once: the RST is in the kernel before the connecting task resumes
+                    return ("ok-then-rst", 0.001, dev)
                 return base_policy(sock, addr)
 
             sim.net.connect_policy = policy
@@ -99,6 +102,8 @@ def run_history(hist: list[Any]) -> dict[str, Any]:
                 # two configured addresses, the first one never answers (refused): as a list, or as a tuple - both are sequences of addresses
                 seq_ = ["10.0.0.7", "10.0.0.1"] if ccfg.get("password") != "other" else ["10.0.0.7", "dev.example.com"]
                 extra_kw["addresses"] = tuple(seq_) if ccfg["addresses"] == "tuple" else seq_
+            if "debug" in ccfg:
+                extra_kw["debug"] = bool(ccfg["debug"])
             cli = sim.client("dev.example.com", 6053, ccfg.get("password", "pw"), **extra_kw)
             apply_world(sim, cfg, "ok")
             sim.net.dns["dev.example.com"] = ["10.0.0.1"]
@@ -580,6 +585,13 @@ def shard(ctx: Ctx) -> None:
                     if how[0] == "connect":
                         one(ctx, [["cfg", {"password": pw}], ["connect+api", "bye-with-last-answer", k, 8], ["connect+api", "ok", k, 4], ["dev", "eof"],
                                   ["connect+api", "bye-with-last-answer", k + 3, 4], ["connect", "ok", "done"]], "goodbye-with-the-last-answer/api-in-the-same-step")
+    # a device that accepts the TCP connection and resets it at once, with the library's debug logging off and on
+    for dbg in (False, True):
+        for how in (["connect", "accept-then-reset", "done"], ["start", "accept-then-reset", "done"]):
+            idx += 1
+            if ctx.mine(idx):
+                one(ctx, [["cfg", {"password": "pw", "debug": dbg}], how, ["api", 2], ["connect", "ok", "done"], ["api", 3], ["dev", "rst"], how,
+                          ["connect", "ok", "done"]], "accept-then-reset")
     # several configured addresses (list / tuple), the first one refusing: sessions come and go as with one address
     for form in ("tuple", "list"):
         for tail in ([["disconnect", "done"]], [["dev", "eof"]], [["force"]], [["dev", "discreq"]]):
